@@ -276,8 +276,10 @@ class FluidPropertyInterExtra(FluidProperty):
                     t_upper_k, t_lower_k)
 
         """
+        upper_limit_arg = np.asarray(upper_limit_arg)
+        lower_limit_arg = np.asarray(lower_limit_arg)
         mean = (self.prop_getter(upper_limit_arg) + self.prop_getter(lower_limit_arg)) / 2
-        return mean * (upper_limit_arg-lower_limit_arg)
+        return mean * (upper_limit_arg - lower_limit_arg)
 
     @classmethod
     def from_path(cls, path, method="interpolate_extrapolate"):
